@@ -280,6 +280,11 @@ func (vt *Model) update(seq ansi.Sequence) {
 	case ansi.DCS:
 		switch seq.Final {
 		case 'q': // mayb sixel
+			if len(seq.Intermediate) == 1 && seq.Intermediate[0] == '+' {
+				// XTGETTCAP
+				vt.xtgettcap(string(seq.Data))
+				return
+			}
 			if len(seq.Intermediate) > 0 {
 				return
 			}
@@ -318,6 +323,19 @@ func (vt *Model) update(seq ansi.Sequence) {
 		}
 	case ansi.APC:
 		vt.postEvent(EventAPC{Payload: seq.Data})
+	}
+}
+
+// xtgettcap answers a terminfo capability query (DCS + q Pt ST) for the
+// capabilities applications probe to find out about features we implement
+func (vt *Model) xtgettcap(name string) {
+	switch strings.ToUpper(name) {
+	case "524742": // RGB
+		fmt.Fprintf(vt.pty, "\x1bP1+r%s=%X\x1b\\", name, "8/8/8")
+	case "536D756C78": // Smulx
+		fmt.Fprintf(vt.pty, "\x1bP1+r%s=%X\x1b\\", name, "\x1b[4:%p1%dm")
+	default:
+		fmt.Fprintf(vt.pty, "\x1bP0+r%s\x1b\\", name)
 	}
 }
 
